@@ -13,12 +13,14 @@ EXTENDS Vauth, Json, SequencesExt
 
 mcFunded == {"s0", "s1", "s2"}
 mcFresh  == {"t0", "t1"}
+(* zero address, 0xff..ff, a module account (gov), a custom precompile (staking) *)
+mcKeyless == {"z0", "zf", "zm", "zp"}
 (* s0 can pay three submissions, s1 one, s2 none *)
-mcInitialUnits == {[a \in mcFunded \cup mcFresh |-> CASE a = "s0" -> 3 [] a = "s1" -> 1 [] OTHER -> 0]}
+mcInitialUnits == {[a \in mcFunded \cup mcFresh \cup mcKeyless |-> CASE a = "s0" -> 3 [] a = "s1" -> 1 [] OTHER -> 0]}
 
 (* the larger universe of the thorough design run (the behaviours for the harness always use the one above) *)
 mcFreshT == {"t0", "t1", "t2"}
-mcInitialUnitsT == {[a \in mcFunded \cup mcFreshT |-> CASE a = "s0" -> 3 [] a = "s1" -> 2 [] OTHER -> 0]}
+mcInitialUnitsT == {[a \in mcFunded \cup mcFreshT \cup mcKeyless |-> CASE a = "s0" -> 3 [] a = "s1" -> 2 [] OTHER -> 0]}
 
 VARIABLE hist
 mcvars == <<vars, hist>>
@@ -35,7 +37,14 @@ mcNext == /\ Len(hist) < Depth
                    ELSE /\ vars' # vars
                         /\ IF o.op = "Create" THEN TRUE ELSE (o.sig \in Canonical /\ o.sub # o.tgt)
                 /\ hist' = IF Record THEN Append(hist, o) ELSE hist
-mcNextFree == \E o \in Ops : Step(o) /\ UNCHANGED hist
+(* the alphabet of the exhaustive run: all of Ops (quick), or - with the larger universe of the thorough run - the
+   core alphabet plus one representative of the classes that differ only in bytes the model does not look at *)
+IsExtra(o) == IF o.op = "Submit" THEN (o.tgt \in Keyless \/ o.sig \in NewForged) ELSE o.to \in Keyless
+ExtraOps   == {o \in Ops : IsExtra(o)}
+CoreOps    == Ops \ ExtraOps
+ReducedOps == CoreOps \cup {o \in ExtraOps : IF o.op = "Submit" THEN (o.sig \in {"zero65", "bysub"} /\ o.tgt \in {"z0", "t0"}) ELSE (o.to = "z0" /\ o.kind = "vest1")}
+CONSTANT McOps
+mcNextFree == \E o \in McOps : Step(o) /\ UNCHANGED hist
 mcSpec    == mcInit /\ [][mcNextFree]_mcvars
 mcSimSpec == mcInit /\ [][mcNext]_mcvars
 
@@ -62,9 +71,14 @@ B1Prefixes == << <<>>,
                <<Sub("s1", "s2", "valid"), Sub("s0", "s1", "valid")>>,
                (* an over-long account containing t0 was submitted: t0 must still be unproven, provable, not vestable *)
                <<Sub("s0", "t0", "L_ts_s")>> >>
-B1 == LET ops == SetToSeq(Ops) IN
-      [i \in 1..(Len(B1Prefixes) * Len(ops)) |->
-          [id |-> i, ops |-> B1Prefixes[((i - 1) \div Len(ops)) + 1] \o <<ops[((i - 1) % Len(ops)) + 1]>>]]
+(* the core alphabet after every prefix; the extra classes (keyless targets, degenerate signatures) from the initial
+   state only - their admitted outcome does not depend on the state *)
+B1 == LET ops == SetToSeq(CoreOps)
+          ext == SetToSeq(ExtraOps)
+          n1  == Len(B1Prefixes) * Len(ops)
+      IN  [i \in 1..(n1 + Len(ext)) |->
+             IF i <= n1 THEN [id |-> i, ops |-> B1Prefixes[((i - 1) \div Len(ops)) + 1] \o <<ops[((i - 1) % Len(ops)) + 1]>>]
+             ELSE [id |-> i, ops |-> <<ext[i - n1]>>]]
 
 DumpB1 == /\ TLCGet("stats").distinct > 0
           /\ ndJsonSerialize("behaviours_b1.ndjson", B1)
